@@ -1,7 +1,7 @@
 (* C05 - interval elementary functions and integer powers enclose every pointwise value.
    The libm functions are oracles of the model; in these theorems they are the real functions exp, ln, sin, cos. *)
 From Coq Require Import Reals Lra ZArith.
-From PUN Require Import Base.Num Model.Interval Model.IntervalFun Proofs.IntervalFun.
+From PUN Require Import Base.Num Model.Interval Model.IntervalFun Proofs.IntervalFun Proofs.Trig.
 Open Scope R_scope.
 
 Section S.
@@ -45,12 +45,17 @@ Proof. exact (ipow_neg_encl fpow fpow_is lo hi k). Qed.
 Theorem C05_negative_pow_pole lo hi (k : nat) : lo <= 0 <= hi -> (0 < k)%nat ->
   ipow RN fpow (lo, hi) (- Z.of_nat k) = Raise ZeroDivision.
 Proof. exact (ipow_neg_pole fpow fpow_is lo hi k). Qed.
-(* sin / cos, PARTIAL: proved for intervals at least one period wide; the case table for shorter intervals is checked by the
-   correspondence run and the dense-sampling oracle only *)
-Theorem C05_sin_full_period_partial lo hi x : 2 * PI <= hi - lo ->
+(* sin / cos: for EVERY interval (any width, any position) the scalar case table encloses the function; fmod is any function
+   with Python's % contract for the modulus 2 pi:  x % m = x - k m  with  0 <= x % m < m *)
+Hypothesis fmod_spec : forall x, exists k : Z, fmod x (2 * PI) = x - IZR k * (2 * PI) /\ 0 <= fmod x (2 * PI) < 2 * PI.
+Theorem C05_sin_encloses lo hi a b x : lo <= hi -> isin RN PI fsin fmod (lo, hi) = Ok (a, b) -> lo <= x <= hi -> a <= sin x <= b.
+Proof. exact (isin_encl fsin fmod fsin_is fmod_spec lo hi a b x). Qed.
+Theorem C05_cos_encloses lo hi a b x : lo <= hi -> icos RN PI fcos fmod (lo, hi) = Ok (a, b) -> lo <= x <= hi -> a <= cos x <= b.
+Proof. exact (icos_encl fcos fmod fcos_is fmod_spec lo hi a b x). Qed.
+Theorem C05_sin_full_period lo hi x : 2 * PI <= hi - lo ->
   isin RN PI fsin fmod (lo, hi) = Ok (-1, 1) /\ -1 <= sin x <= 1.
 Proof. exact (isin_full_period fsin fmod lo hi x). Qed.
-Theorem C05_cos_full_period_partial lo hi x : 2 * PI <= hi - lo ->
+Theorem C05_cos_full_period lo hi x : 2 * PI <= hi - lo ->
   icos RN PI fcos fmod (lo, hi) = Ok (-1, 1) /\ -1 <= cos x <= 1.
 Proof. exact (icos_full_period fcos fmod lo hi x). Qed.
 End S.
@@ -61,3 +66,5 @@ Print Assumptions C05_abs_exact.
 Print Assumptions C05_pow_encloses.
 Print Assumptions C05_negative_pow_encloses.
 Print Assumptions C05_negative_pow_pole.
+Print Assumptions C05_sin_encloses.
+Print Assumptions C05_cos_encloses.
